@@ -22,6 +22,7 @@ def fingerprints():
     fp.update(fingerprint_defs('coba/environments/core.py', ['Environments.scale', 'Environments.impute']))
     return fp
 
+TOL = [1e-9]      # binary64 rounding allowance; a feature of magnitude 1.7e9 carries an absolute error of about 2e-7 through (x + shift), so cases with such a feature are compared with 1e-6
 def gen_col(rng, N, kind):
     out = []
     for _ in range(N):
@@ -29,13 +30,14 @@ def gen_col(rng, N, kind):
         if k < 0.18: out.append(None)
         elif kind == "num": out.append(rng.choice([0, 1, 2, 3, 5, -1, 0.5, 1.5, 2.5, 4.0]))
         elif kind == "const": out.append(2)
+        elif kind == "big": out.append(1_700_000_000 + rng.choice([0, 1, 2, 3, 5, 8, 13, 60]))      # a time-stamp like feature: large mean, small spread
         else: out.append(rng.choice(["u", "v", "w"]))
     return out
 
 def gen_rows(rng, shape):
     N = rng.choice([0, 1, 2, 3, 4, 6, 8])
     if shape == "dense":
-        kinds = [rng.choice(["num", "num", "num", "str", "const"]) for _ in range(rng.randrange(1, 5))]
+        kinds = [rng.choice(["num", "num", "num", "str", "const", "big"]) for _ in range(rng.randrange(1, 5))]
         cols = [gen_col(rng, N, k) for k in kinds]
         return [[c[i] for c in cols] for i in range(N)], kinds
     if shape == "sparse":
@@ -157,7 +159,7 @@ def close(a, b):
     if isinstance(a, (list, tuple)) and isinstance(b, (list, tuple)): return len(a) == len(b) and all(close(x, y) for x, y in zip(a, b))
     if isinstance(a, dict) and isinstance(b, dict): return a.keys() == b.keys() and all(close(a[k], b[k]) for k in a)
     if isinstance(a, (list, tuple, dict)) or isinstance(b, (list, tuple, dict)): return False
-    return abs(float(a) - float(b)) <= 1e-9 * max(1.0, abs(float(b)))
+    return abs(float(a) - float(b)) <= TOL[0] * max(1.0, abs(float(b)))
 
 # ------------------------------------------------------------------ wire
 def w_cell(v):
@@ -216,6 +218,7 @@ def one_case(ctx, rng, kind_label):
         if shape != "dense" or (rows2 and rows and len(rows2[0]) == len(rows[0])) or not rows2: seqs.append((rows2, kinds2))
     reqs = []
     for si, (rs, ks) in enumerate(seqs):
+        TOL[0] = 1e-6 if "big" in (ks if isinstance(ks, list) else list(ks.values())) else 1e-9
         c = dict(case, rows=rs, sequence_no=si)
         nontrivial = len(rs) >= 2 and ("num" in (ks if isinstance(ks, list) else ks.values()))
         ctx.count(kind_label + ":" + op + ":" + shape, repr(c), nontrivial)
@@ -287,6 +290,7 @@ def run(ctx):
     mouts = ctx.get_model().batch([(11, r[2]) for r in reqs])
     for (c, got, _), mo in zip(reqs, mouts):
         m = unwire(c["shape"], mo)
+        TOL[0] = 1e-6 if "17000000" in repr(c.get("rows")) else 1e-9
         if not close(got, m): ctx.disagree("C11.run:" + c["op"] + ":" + c["shape"], c, str(got)[:400], str(m)[:400])
 
 def replay(r):
